@@ -152,6 +152,8 @@ impl Generator {
             _ => (),
         }
 
+        #[cfg(kaspar030_laze_verif)]
+        crate::verif_oracle::fault("after_cache_removed");
         let mut ninja_build_file = std::io::BufWriter::new(std::fs::File::create(
             get_ninja_build_file(&self.build_dir, &self.mode).as_path(),
         )?);
@@ -313,6 +315,8 @@ impl Generator {
         ninja_build_file.flush()?;
         drop(ninja_build_file);
 
+        #[cfg(kaspar030_laze_verif)]
+        crate::verif_oracle::fault("after_ninja_flushed");
         let build_dir = self.build_dir.clone();
         let result = GenerateResult::new(self, builds, treestate);
         result.to_cache(&build_dir)?;
